@@ -23,6 +23,7 @@
 #include <sys/mman.h>
 #include <sys/prctl.h>
 #include <sys/socket.h>
+#include <sys/syscall.h>
 #include <sys/stat.h>
 #include <sys/time.h>
 #include <sys/un.h>
@@ -332,6 +333,24 @@ static size_t run_line(size_t pc, int in_child, int *stop) {
         struct sockaddr_un u; memset(&u, 0, sizeof u); u.sun_family = AF_UNIX; snprintf(u.sun_path, sizeof u.sun_path, "%s", (char *) a);
         int sent = 0; if (connect(sfd, (struct sockaddr *) &u, sizeof u) == 0) { while (send(sfd, "F", 1, MSG_DONTWAIT) == 1 && sent < 100000) sent++; }
         close(sfd); free(a); opf("{\"ev\":\"filled\",\"n\":%d}\n", sent);
+    } else if (!strcmp(c, "setsid")) { if (setsid() < 0) opf("{\"ev\":\"error\",\"what\":\"setsid: %s\"}\n", strerror(errno));
+    } else if (!strcmp(c, "rename")) { unsigned char *a = unhex(tok[1], &n), *b2 = unhex(tok[2], &n); if (rename((char *) a, (char *) b2)) opf("{\"ev\":\"error\",\"what\":\"rename: %s\"}\n", strerror(errno)); free(a); free(b2);
+    } else if (!strcmp(c, "mkdirp")) { unsigned char *a = unhex(tok[1], &n); for (char *q = (char *) a + 1; *q; q++) if (*q == '/') { *q = 0; mkdir((char *) a, 0777); *q = '/'; } mkdir((char *) a, 0777); free(a);
+    } else if (!strcmp(c, "procstate")) {                            /* independent reading of the process state (the oracle of C12) */
+        uid_t r, e, sv; gid_t gr, ge, gs; getresuid(&r, &e, &sv); getresgid(&gr, &ge, &gs);
+        char cwd[8192] = "", in0[512] = "", host[256] = "", lg[256] = ""; ssize_t q;
+        q = readlink("/proc/self/cwd", cwd, sizeof cwd - 1); if (q < 0) q = 0; cwd[q] = 0;
+        q = readlink("/proc/self/fd/0", in0, sizeof in0 - 1); if (q < 0) q = 0; in0[q] = 0;
+        gethostname(host, sizeof host - 1);
+        int lgr = getlogin_r(lg, sizeof lg);
+        struct stat st0; int isatty0 = isatty(0); long ttyuid = -1; if (isatty0 && stat(in0, &st0) == 0) ttyuid = (long) st0.st_uid;
+        struct timeval tv; gettimeofday(&tv, NULL);
+        opf("{\"ev\":\"procstate\",\"label\":\"%s\",\"ruid\":%u,\"euid\":%u,\"suid\":%u,\"rgid\":%u,\"egid\":%u,\"sgid\":%u,\"pid\":%d,\"ppid\":%d,\"sid\":%d,\"ktid\":%ld,\"pthread_self\":\"%lu\",",
+            ntok > 1 ? tok[1] : "", r, e, sv, gr, ge, gs, (int) getpid(), (int) getppid(), (int) getsid(0), (long) syscall(SYS_gettid), (unsigned long) pthread_self());
+        opf("\"isatty\":%d,\"ttyuid\":%ld,\"login_rc\":%d,\"now\":%ld,\"cwd\":", isatty0, ttyuid, lgr, (long) tv.tv_sec); ohex((unsigned char *) cwd, strlen(cwd));
+        opf(",\"stdin\":"); ohex((unsigned char *) in0, strlen(in0)); opf(",\"hostname\":"); ohex((unsigned char *) host, strlen(host)); opf(",\"login\":"); ohex((unsigned char *) lg, lgr == 0 ? strlen(lg) : 0);
+        opf(",\"cgroup\":"); { int f = open("/proc/self/cgroup", O_RDONLY); static unsigned char cb[65536]; ssize_t rr = f >= 0 ? read(f, cb, sizeof cb) : 0; if (rr < 0) rr = 0; if (f >= 0) close(f); ohex(cb, (size_t) rr); }
+        opf(",\"environ\":["); for (size_t i = 0; environ && environ[i]; i++) { if (i) opf(","); ohex((unsigned char *) environ[i], strlen(environ[i])); } opf("]}\n");
     } else if (!strcmp(c, "dumpenv")) {
         opf("{\"ev\":\"env\",\"pid\":%d,\"sid\":%d,\"vars\":[", (int) getpid(), (int) getsid(0));
         for (size_t i = 0; environ && environ[i]; i++) { if (i) opf(","); ohex((unsigned char *) environ[i], strlen(environ[i])); }
